@@ -9,8 +9,9 @@ import sys
 import time
 
 from . import features, plans
-from .run import (CHUNK, REPO, ROOT, HarnessFailure, chunk_task, load_findings,
-                  open_findings, run_index, run_pool)
+from .run import (CHUNK, REPO, ROOT, HarnessFailure, chain_task, chunk_task,
+                  first_outcome_diff, fresh_outcomes_task, load_findings, open_findings,
+                  probe_task, run_index, run_pool)
 
 LEVELS = {"C12": "exploration", "C13": "exploration", "C14": "exploration",
           "C15": "exploration", "C20": "exploration"}
@@ -99,6 +100,7 @@ def run_check(prop, tier, seed, args):
         "runs": 0, "stats": collections.Counter(), "per_batch": {},
         "digests": set(), "nontrivial": set(), "interleavings": set(), "shapes": set(),
         "samples": [], "violations": [], "abort_sites": collections.Counter(),
+        "by_idx": {},
     }
     exit_code = 0
     selftest = None
@@ -121,9 +123,13 @@ def run_check(prop, tier, seed, args):
                     absorb(agg, per, r)
 
             idxs = plans.batch_indices(b, runs)
+            chunk_lists = chunks(idxs, CHUNK)
             tasks = [(chunk_task, (prop, seed, ch, profiles[b], not args.no_minimise))
-                     for ch in chunks(idxs, CHUNK)]
+                     for ch in chunk_lists]
             _, skipped = run_pool(tasks, args.jobs, deadline=deadline, on_result=on_result)
+            if b != "abort_enum" and time.time() < deadline:
+                isolation_probes(prop, seed, b, profiles[b], chunk_lists, agg, args,
+                                 24 if tier == "quick" else 250)
             per["wall_s"] = round(time.time() - tb, 2)
             per["skipped_for_wall_cap"] = skipped * CHUNK
             print(f"batch {b}: runs={per['runs']} wall={per['wall_s']}s "
@@ -172,7 +178,64 @@ def run_check(prop, tier, seed, args):
     return exit_code
 
 
+def isolation_probes(prop, seed, batch, profile, chunk_lists, agg, args, n_probe):
+    """Cross-family isolation: the last run of a worker's chunk (executed after
+    seven unrelated families in the same process) is executed again alone in a
+    fresh process; its normalised outcomes must be identical.  A difference means
+    some process-wide state of the library leaked from one family to another."""
+    by_idx = agg["by_idx"]
+    victims = []
+    for ch in chunk_lists:
+        if len(ch) < 2 or ch[-1] not in by_idx or by_idx[ch[-1]]["violation"]:
+            continue
+        victims.append((ch, ch[-1]))
+    step = max(1, len(victims) // n_probe)
+    victims = victims[::step][:n_probe]
+    if not victims:
+        return
+    res, _ = run_pool([(probe_task, (prop, seed, v, profile)) for _, v in victims], args.jobs)
+    fresh_by = {r["idx"]: r for r in res}
+    agg["stats"]["isolation_probes"] += len(res)
+    reported = 0
+    for ch, v in victims:
+        fr = fresh_by.get(v)
+        if fr is None or fr["violation"] is not None:
+            continue
+        if fr["out_digest"] == by_idx[v]["out_digest"]:
+            continue
+        agg["stats"]["isolation_mismatches"] += 1
+        if reported >= 2:
+            continue
+        reported += 1
+        # which earlier family of the chunk is responsible?
+        pairs, _ = run_pool([(chain_task, (prop, seed, j, v, profile)) for j in ch[:-1]], args.jobs)
+        culprit = None
+        for pr in sorted(pairs, key=lambda x: x["first"]):
+            if pr["dirty"]["violation"] is None and pr["dirty"]["out_digest"] != fr["out_digest"]:
+                culprit = pr
+                break
+        if culprit is None:
+            # needs more than one predecessor: report the whole chunk prefix
+            continue
+        fresh_full, _ = run_pool([(fresh_outcomes_task, (culprit["cases"][1],))], 1)
+        diff = first_outcome_diff(fresh_full[0]["outcomes"], culprit["dirty"]["outcomes"])
+        if diff is None:
+            continue
+        vcase = culprit["cases"][1]
+        vio = {"class": "cross-family-contamination", "op_index": diff.get("op_index") or 0,
+               "sub": diff.get("sub"), "diff_at": None}
+        rec = features.record(vcase, vio)
+        replay = {"kind": "chain", "prop": prop, "seed": seed, "index": v,
+                  "indices": [culprit["first"], v], "batch": batch, "cases": culprit["cases"],
+                  "violation": {"class": "cross-family-contamination", "diff": diff},
+                  "record": rec}
+        agg["violations"].append({"class": "cross-family-contamination", "record": rec,
+                                  "replay": replay})
+
+
 def absorb(agg, per, r):
+    agg["by_idx"][r["idx"]] = {"out_digest": r.get("out_digest"),
+                               "violation": r["violation"]["class"] if r["violation"] else None}
     agg["runs"] += 1
     per["runs"] += 1
     agg["stats"]["executions"] += r.get("execs", 1)
@@ -234,6 +297,10 @@ def write_evidence(prop, tier, seed, agg, wall, n_unknown, seen_known, selftest,
             "F4_aborts_configured_but_op_finished_first": st.get("aborts_missed", 0),
         },
         "F4_abort_sites_top": dict(collections.Counter(agg["abort_sites"]).most_common(12)),
+        "cross_family_isolation": {
+            "probes": st.get("isolation_probes", 0),
+            "mismatches": st.get("isolation_mismatches", 0),
+            "what": "last run of a worker chunk re-executed alone in a fresh process; normalised outcomes must be identical"},
         "distinct_run_digests": len(agg["digests"]),
         "distinct_interleavings": len(agg["interleavings"]),
         "distinct_history_shapes": len(agg["shapes"]),
